@@ -545,6 +545,26 @@ def r12_values_reach_the_settings(idx, r):
         raise AnalysisError(f"_SINGLE_XS_SCHEMA has coerced options the frozen table does not know: {extra}")
 
 
+def r13_yaml_scalars_are_not_all_strings(idx, r):
+    """The values of a dictionary-valued setting come back from YAML with the type YAML gives them: `armi.foo: 20` is the integer 20, and
+    the settings system itself accepts and writes it that way.  Code that consumes such values applies string methods only to str(value) -
+    otherwise a file ARMI wrote itself cannot be read back."""
+    f = idx.method(SETTINGS, "setModuleVerbosities")
+    loop = next((x for x in walk_local(f.node) if isinstance(x, ast.For) and call_attr(x.iter) == "items" if isinstance(x.iter, ast.Call)), None)
+    if loop is None or not isinstance(loop.target, ast.Tuple):
+        raise AnchorMissing("Settings.setModuleVerbosities: loop over the verbosity items")
+    val = norm(loop.target.elts[1])
+    strs = any(isinstance(s_, ast.Assign) and norm(s_.targets[0]) == val and isinstance(s_.value, ast.Call) and dotted(s_.value.func) == "str" for s_ in ast.walk(loop))
+    n = 0
+    for c in ast.walk(loop):
+        if isinstance(c, ast.Call) and isinstance(c.func, ast.Attribute) and c.func.attr in ("isnumeric", "isdigit", "upper", "lower", "strip", "startswith") and norm(c.func.value) == val:
+            n += 1
+            r.require(strs, f"setModuleVerbosities:{c.func.attr}:on-a-string", f, node=c,
+                      msg=f"`{norm(c)}` assumes the level is a string; `moduleVerbosity: {{armi.foo: 20}}` is accepted, written as the number 20 and then fails to read back with AttributeError")
+    if n < 1:
+        raise AnchorMissing("setModuleVerbosities: string test on the level")
+
+
 def run(idx, chk):
     chk.explanation = (
         "C17: schema validation dominating the store in Setting.setValue and the frozen writers of Setting._value; the renamed name being the one "
@@ -572,3 +592,5 @@ def run(idx, chk):
                  necessary="type and consistency violations are rejected when the settings are read; accepted old names are exactly the unexpired ones")
     chk.run_rule("R17.12", "every file entry is applied; schema results are used; cross-section options keep their numeric kind", lambda r: r12_values_reach_the_settings(idx, r), floor=9,
                  necessary="a value written reads back as the same value of the same type")
+    chk.run_rule("R17.13", "string methods are applied to str(value) where the value comes from a YAML dictionary (module verbosities)", lambda r: r13_yaml_scalars_are_not_all_strings(idx, r), floor=1,
+                 necessary="a settings file the system wrote can be read back")
